@@ -14,7 +14,7 @@ package aspect_elimination
 //@ spec aeImportance(l model.BiasListener, p *model.DecisionMakingParams, id string) real = p.MethodParameters.(AspectEliminationHeuristicParams).Weights[id]
 
 //@ func (*AspectEliminationHeuristicParams).with
-//@   property C07 C01 C12
+//@   property C07 C01 C12 C15 C18
 //@   nopanic
 //@   ensures [replaced] result.Params == params && result.Weights == *weights && result.Function == a.Function && result.RandomSeed == a.RandomSeed
 //@             && result.RandomAlternativesOrdering == a.RandomAlternativesOrdering
@@ -24,6 +24,7 @@ package aspect_elimination
 //@   refines model.BiasListener.OnCriteriaRemoved with validParams=aeValid, coversId=aeCovers
 //@   ensures [weights_restricted] forall k int :: 0 <= k && k < len(*leftCriteria) ==>
 //@             result.(AspectEliminationHeuristicParams).Weights[(*leftCriteria)[k].Id] == params.(AspectEliminationHeuristicParams).Weights[(*leftCriteria)[k].Id]
+//@   ensures [no_weight_left_for_an_omitted_criterion] forall q string :: q in result.(AspectEliminationHeuristicParams).Weights ==> exists k int :: 0 <= k && k < len(*leftCriteria) && (*leftCriteria)[k].Id == q
 
 //@ func (*AspectEliminationBiasListener).OnCriterionAdded
 //@   property C07 C18
@@ -133,7 +134,7 @@ package aspect_elimination
 
 // criteria from the heaviest weight down (ties in any order: the seeded generator breaks them)
 //@ func sortCriteria
-//@   property C12
+//@   property C12 C01 C14
 //@   fnparam generator ensures 0.0 <= result && result < 1.0
 //@   ensures [heaviest_first] forall i int, j int :: 0 <= i && i < j && j < len(result) ==> result[i].Weight >= result[j].Weight
 //@   ensures [the_methods_criteria] len(result) == len(dmp.Criteria) && forall k int :: 0 <= k && k < len(result) ==> exists j int :: 0 <= j && j < len(dmp.Criteria) && result[k].Criterion == dmp.Criteria[j] && result[k].Weight == params.Weights[dmp.Criteria[j].Id]
@@ -165,3 +166,27 @@ package aspect_elimination
 //@   ensures [entries_are_considered_alternatives] forall k int :: 0 <= k && k < len(*result) ==> exists j int :: 0 <= j && j < len(dmp.ConsideredAlternatives) && (*result)[k].Alternative == dmp.ConsideredAlternatives[j]
 //@   ensures [each_links_to_the_next] forall i int :: 0 <= i && i < len(*result) ==>
 //@             (i + 1 < len(*result) ? (len((*result)[i].BetterThanOrSameAs) == 1 && (*result)[i].BetterThanOrSameAs[0] == (*result)[i + 1].Alternative.Id) : len((*result)[i].BetterThanOrSameAs) == 0)
+
+// the registered object holds exactly the collaborators it was built with, each in its own role
+//@ func NewAspectEliminationBiasListener
+//@   property C12 C07 C09
+//@   nopanic
+//@   ensures [wired_as_given] result != nil && fresh(result) && result.satisfactionLevelsUpdateListeners == satisfactionLevelsUpdateListeners
+
+// the registered object holds exactly the collaborators it was built with, each in its own role
+//@ func NewAspectEliminationHeuristic
+//@   property C12 C09 C01
+//@   nopanic
+//@   ensures [wired_as_given] result != nil && fresh(result) && result.functions == functions && result.generator == generator
+
+// ---- wire format: the JSON names under which requests are read and responses are written (struct tags; encoding/json
+// itself is outside the verified code).  A renamed or omitempty field changes what a client sees without changing any Go value.
+//@ wire aspectEliminationAddedCriterion
+//@   property C01 C07 C20
+//@   json Weights=weights Params=params,omitempty
+//@ wire AspectEliminationEvaluation
+//@   property C01 C12 C20
+//@   json NotSatisfiedThreshold=notSatisfiedThreshold ThresholdsIndex=thresholdsIndex
+//@ wire AspectEliminationHeuristicParams
+//@   property C01 C12 C20
+//@   json Function=function Params=params RandomSeed=randomSeed Weights=weights RandomAlternativesOrdering=randomAlternativesOrdering
